@@ -443,7 +443,7 @@ def correspondence(ctx):
     rng = ctx.np_rng(7)
     streams = []
     codes = code_list(ctx, extra=[('Cyc3', (2, 2)), ('Cyc3', (3, 2))])
-    kchan = 6 if ctx.thorough else 3
+    kchan = 12 if ctx.thorough else 3
 
     # --- probability_distribution: every class x deformation name x axis
     s = Stream('probability_distribution')
@@ -493,7 +493,7 @@ def correspondence(ctx):
 
     # --- generate(): stub RNG through the public rng= parameter
     s = Stream('generate')
-    reps = 4 if ctx.thorough else 2
+    reps = 10 if ctx.thorough else 2
     for name, size, code, dname, dkw, words in built:
         if code.n > 60 and not ctx.thorough:
             continue
@@ -548,13 +548,15 @@ def correspondence(ctx):
                 ('Planar2DCode', (2, 2), 'XY'), ('Toric3DCode', (2, 2, 2), None)]
     if ctx.thorough:
         bp_codes += [('RotatedPlanar2DCode', (3, 3), None), ('Toric3DCode', (2, 2, 2), 'XZZX'),
-                     ('XCubeCode', (2, 2, 2), None), ('Color666ToricCode', (2, 2), None)]
+                     ('XCubeCode', (2, 2, 2), None), ('RotatedPlanar3DCode', (2, 2, 2), None)]
     for name, size, code_def in bp_codes:
         code = make_code(name, size)
         if code_def is not None:
             code.deform(code_def)
         css = bool(code.is_css)
         n = code.n
+        if css and same_matrix(code.Hx, code.Hz):
+            continue   # self-dual code: the spy could not tell the X decoder from the Z decoder
         for dname, dkw in deformation_options(name)[:3]:
             words = deformation_words(code, dname, dkw)
             for p, r in channel_samples(ctx, rng, reps + 1):
@@ -645,6 +647,18 @@ def _check_case(case):
     kind = case['kind']
     if kind == 'update':
         return _check_update(case)
+    if kind == 'choice':
+        # fast_choice on an explicit weight vector: the letter whose cumulative interval contains u;
+        # a variate beyond the total (only possible through rounding slack or unnormalised weights)
+        # goes to the last option
+        from panqec.error_models._pauli_error_model import fast_choice
+        pv = [parse_rat(t) for t in case['probs']]
+        u = parse_rat(case['u'])
+        got = fast_choice(('I', 'X', 'Y', 'Z'), [float(x) for x in pv], rng=StubRng([float(u)]))
+        iv = cum_intervals(dict(zip(LETTERS, pv)))
+        want = [t for t in LETTERS if iv[t][0] <= u < iv[t][1]]
+        want = want[0] if want else 'Z'
+        return None if got == want else f'fast_choice returned {got} for u={u}, weights {case["probs"]}: expected {want}'
     code, em, p, r, dists = case_objects(case)
     n = code.n
     pf = float(p)
@@ -842,6 +856,10 @@ def oracle_cases(ctx, deep):
                     if dname is not None:  # XZZX-deformed code objects are not CSS: joint decoder
                         cases.append(dict(base, kind='bposd', code_deformation='XZZX',
                                           decoding=[int(x) for x in rng.integers(0, 2, 2 * n)]))
+    for _ in range(40 if deep else 12):
+        pv = [Fraction(int(rng.integers(0, 5)), 16) for _ in range(4)]
+        for u in edge_us(dict(zip(LETTERS, pv)), rng):
+            cases.append({'kind': 'choice', 'probs': [rs(x) for x in pv], 'u': rs(u)})
     for _ in range(60 if deep else 20):
         m = int(rng.integers(1, 6))
         ds = []
